@@ -365,6 +365,15 @@ impl Storage {
         if let Some(min_number) = min_block_number {
             self.update_min_filtered_block_number(min_number);
         }
+        // The pending matched blocks are going to be discarded without being indexed, but the
+        // filters of their ranges have already been processed: sync those filters again, so no
+        // block is skipped for the scripts which are still registered.
+        if let Some((start_number, _, _)) = self.get_earliest_matched_blocks() {
+            let rewind_to = start_number.saturating_sub(1);
+            if rewind_to < self.get_min_filtered_block_number() {
+                self.update_min_filtered_block_number(rewind_to);
+            }
+        }
         self.clear_matched_blocks();
 
         if should_filter_genesis_block {
